@@ -233,3 +233,10 @@ def h4(ctx: Ctx) -> None:
     from .c13 import check_registration
 
     check_registration(ctx)
+
+
+@rule("C14.H5", "mechanism shared with C13: every shock's hooks are registered, once, for the shock that declared them (whatever session it belongs to)", "T4 + closure capture (same rule as C13.R5)", floor=3)
+def h5(ctx: Ctx) -> None:
+    from .c13 import r5 as registration_rule
+
+    registration_rule(ctx)
